@@ -33,6 +33,38 @@ def apalache_varint(prop, tier, seed, work):
     return (dict(kind="apalache", module="VarintApa", invariant="Inv", domain="all 2^32 lengths x every continuation of the buffer",
                  outcome="NoError", secs=round(time.time() - t, 1), states=1, transitions=1, evaluations=1, distinct_nontrivial=1), [])
 
+def apalache_sorter(prop, tier, seed, work):
+    """Apalache: the sorter's buffer bookkeeping invariant is inductive for every budget, capacity and
+    entry size (base case + inductive step); the variant whose fit test forgets the 16-byte bound
+    must be refuted (non-vacuity)."""
+    from vlib import SPEC, OUT, ToolError
+    d = os.path.join(OUT, "apalache", prop + "-sorter")
+    shutil.rmtree(d, ignore_errors=True)
+    os.makedirs(d, exist_ok=True)
+    t = time.time()
+    def run(path, mode):
+        try:
+            p = subprocess.run(["apalache-mc", "check"] + mode + ["--next=Next", "--inv=Inv", "--out-dir=" + os.path.join(d, "o"), path],
+                               cwd=d, stdout=subprocess.PIPE, stderr=subprocess.STDOUT, text=True, timeout=900)
+        except subprocess.TimeoutExpired:
+            raise ToolError("apalache-mc timed out on " + path)
+        return "The outcome is: NoError" in p.stdout, p.stdout
+    good = os.path.join(SPEC, "SorterAcctApa.tla")
+    for mode in (["--init=Init", "--length=0"], ["--init=IndInit", "--length=1"]):
+        ok, out = run(good, mode)
+        if not ok:
+            raise ToolError("Apalache did not prove SorterAcctApa!Inv (%s):\n%s" % (" ".join(mode), out[-2000:]))
+    bad = os.path.join(d, "SorterAcctApaBad.tla")
+    src = open(good).read().replace("MODULE SorterAcctApa", "MODULE SorterAcctApaBad").replace("c - e - 16 * n >= 16 + s", "c - e - 16 * n >= s")
+    open(bad, "w").write(src)
+    ok, out = run(bad, ["--init=IndInit", "--length=1"])
+    if ok:
+        raise ToolError("non-vacuity self-test: the fit test without the bound size was expected to break SorterAcctApa!Inv")
+    shutil.rmtree(d, ignore_errors=True)
+    return (dict(kind="apalache", module="SorterAcctApa", invariant="Inv (inductive)", domain="all budgets, capacities, entry sizes; growth abstracted to any capacity in which the entry fits",
+                 outcome="NoError", secs=round(time.time() - t, 1), states=2, transitions=2, evaluations=2, distinct_nontrivial=2), [])
+
+
 def cursor_model(trees_quick, trees_thorough, sample_quick, extend_quick):
     """Spec -> implementation for the cursor: TLC explores the implementation-shaped model
     CursorImpl on the decoded trees of real corner files (checking Refines and LoadBound on every
@@ -339,7 +371,7 @@ PLANS = {
                 gen=[G("cut", 300, 10000, "TraceLayout", "TraceLayout_C15.cfg"),
                      # the files the sorter writes itself (spilled and merged chunks)
                      G("chunks", 48, 1500, "TraceLayout", "TraceLayout_C15.cfg")]),
-    "C17": dict(level="other", crash_is_violation=True, extra=[sorter_model(["a", "b", "c"], 30, 400)], explanation="Partial: decides the allocation protocol (layout equality, guard words, double free, leak of the sorter buffer class), the sorter's two-ended buffer bookkeeping (hook H2) and arithmetic overflow (checked build) on executions of the real code, validated by TLC against Alloc.tla. Out-of-bounds READS, use of freed memory through a lifetime-extended reference, alignment and provenance violations leave no trace in these events and are NOT decided (needs Miri/ASan, a different technique family).",
+    "C17": dict(level="other", crash_is_violation=True, extra=[sorter_model(["a", "b", "c"], 30, 400), apalache_sorter], explanation="Partial: decides the allocation protocol (layout equality, guard words, double free, leak of the sorter buffer class), the sorter's two-ended buffer bookkeeping (hook H2) and arithmetic overflow (checked build) on executions of the real code, validated by TLC against Alloc.tla. Out-of-bounds READS, use of freed memory through a lifetime-extended reference, alignment and provenance violations leave no trace in these events and are NOT decided (needs Miri/ASan, a different technique family).",
                 assumptions=TRUST + ["monitoring global allocator of the harness process (header + canaries per block)", "hook H2 exposes the sorter's buffer accounting", "overflow checks of the dev-profile build"],
                 mc=[MC("MCSorter", "MCSorter_acct_realloc.cfg", workers=4), MC("MCSorter", "MCSorter_acct_fixed.cfg", workers=4),
                     MC("MCSorter", "MCSorter_acct_big.cfg", workers=4)],
